@@ -15,7 +15,7 @@ def family(pid, tier, seed):
     if pid == "C01":
         n, exh, rnd = (24, 3, 60) if quick else (120, 3, 200)
         for i in range(n):
-            kinds = [[], ["token", "tokens"], ["int8"], ["token", "tokens", "int8"]][i % 4]
+            kinds = [[], ["token", "tokens"], ["int8"], ["token", "tokens", "int8"], ["capt"], ["capt", "tokens"]][i % 6]
             g = GG.make_grammar(rng, "g%d" % i, extra_kinds=kinds, ks=(0, 1, 2, 3, 99999, -1, -3) if i % 3 == 0 else (0, 1, 2, -1), use_user=(i % 4 == 3))
             seen = set()
             GG.exhaustive_inputs(g, (exh if i % 2 == 0 else 2) if quick else (4 if i % 6 == 0 else 3), seen, extra_terms=("A",) if g["ci"] else ())
@@ -231,7 +231,7 @@ def leak_family(rng, quick):
     def look(neg, kid):
         return {"op": "look", "neg": neg, "kid": kid}
 
-    kinds = ["string", "strings", "bool", "int8", "token"]
+    kinds = ["string", "strings", "bool", "int8", "token", "capt"]
     nested_opts = ["none", "complete", "partial", "deep"]
     cps = ["alt", "opt", "star", "plus", "neg", "look", "nlook", "altalt"]
     combos = list(itertools.product(cps, nested_opts, kinds))
@@ -241,10 +241,14 @@ def leak_family(rng, quick):
     combos += [("zw_prod", "none", k) for k in ("string", "token")] + [("zw_cap", "none", k) for k in ("tokens", "string", "bool")]
     combos += [(c, n, k) for c in ("lookcap", "nlookcap") for n in ("none", "complete", "partial") for k in ("string", "strings", "bool")]
     combos += [("caploop", "none", k) for k in ("string", "strings", "tokens")] + [("capplus", "none", k) for k in ("string", "strings")]
+    # fields of a user type implementing participle.Capture (written through Capture(), which user code makes accumulate)
+    combos += [(c, n, "capt") for c in ("alt", "opt", "star", "altalt") for n in ("none", "complete")]
     # the SAME field captured on the accepted path and again, first thing, inside the abandoned attempt
-    combos += [("samefield_" + m, "none", k) for m in ("star", "opt", "alt") for k in ("string", "strings")]
+    combos += [("samefield_" + m, "none", k) for m in ("star", "opt", "alt") for k in ("string", "strings", "capt")]
     # a modifier applied directly to a multi-token capture: @( A B )*  @( A B )?  @( A B )+
     combos += [("modcap_" + m, "none", k) for m in ("star", "opt", "plus") for k in ("string", "strings", "tokens")]
+    # the three shapes of the long-input run (leak-big): here with short inputs, judged by the meaning
+    combos += [("big_" + m, "none", "strings") for m in ("alt", "opt", "look")]
     for idx, (cp, nested, kind) in enumerate(combos):
         fields0 = [{"name": "A", "kind": kind, "arg": ""}, {"name": "B", "kind": "strings", "arg": ""}, {"name": "C", "kind": "string", "arg": ""}]
         capA = cap("A", kind, ref("Int") if kind == "int8" else ref("Ident"))
@@ -294,6 +298,17 @@ def leak_family(rng, quick):
             tail_ = grp(m, again) if m != "alt" else grp("once", {"op": "alt", "kids": [again, lit(";")]})
             body = seq(cap("A", kind, ref("Ident")), grp("opt", tail_) if m == "alt" else tail_, grp("opt", cont))
             prods_extra = []
+        elif cp.startswith("big_"):
+            fields0 = [{"name": "A", "kind": "strings", "arg": ""}, {"name": "B", "kind": "strings", "arg": ""}]
+            m = cp.split("_")[1]
+            bpart = seq(grp("star", cap("B", "strings", ref("Ident"))), lit("?"))
+            if m == "alt":
+                body = {"op": "alt", "kids": [seq(grp("star", cap("A", "strings", ref("Ident"))), lit("!")), bpart]}
+            elif m == "opt":
+                body = seq(grp("opt", seq(grp("plus", cap("A", "strings", ref("Ident"))), lit("!"))), grp("once", bpart))
+            else:
+                body = seq(grp("opt", look(False, seq(grp("star", cap("A", "strings", ref("Ident"))), lit("!")))), grp("once", bpart))
+            prods_extra = []
         elif cp.startswith("modcap_"):
             fields0 = [{"name": "A", "kind": kind, "arg": ""}, {"name": "C", "kind": "string", "arg": ""}]
             m = cp.split("_")[1]
@@ -339,7 +354,7 @@ def leak_family(rng, quick):
                     GG.add_input(g, " ".join(["z"] + ts), seen)
         for ts in (["x", "(", "y", "(", "7"], ["x", "(", "y", "(", "(", "z"], ["(", "y", "(", "7"], ["x", "(", "7"], ["x", "(", "y", "("], ["(", "y", "(", "z", "(", ")"]):
             GG.add_input(g, " ".join(ts), seen)
-        for ts in (["x", "w"], ["7"], ["x", "?"], ["-", "7", "!"], ["-", "!"], ["!"], ["-", "x"], ["-", "7", "?"],
+        for ts in (["x", "x", "x", "?"], ["x", "x", "!"], ["x", "x", "x", "x", "x", "?"], ["?"], ["x", "w"], ["7"], ["x", "?"], ["-", "7", "!"], ["-", "!"], ["!"], ["-", "x"], ["-", "7", "?"],
                    ["x", "w", "!", "u"], ["x", "!", "w"], ["x", "!", "w", "!", "u"], ["x", "!", "w", "?"], ["x", "w", "!", "u", "v"], ["x", "!", "w", "!", ";"]):
             GG.add_input(g, " ".join(ts), seen)
         GG.random_inputs(g, rng, 20 if quick else 80, 7, seen, seps=(" ", " ", "  "))
@@ -538,6 +553,18 @@ def run(pid, tier, args):
         if pid == "C01" and not args.replay:
             from props import recorded
             recorded.check(v, wd, pid)
+        if pid == "C02" and not args.replay:
+            # abandoned attempts that had queued up to 5000 captures (the shapes big_alt / big_opt / big_look of the family)
+            nbig = 0
+            for line in vlib.vh(vhbin, ["leak-big"], timeout=1200).splitlines():
+                f = line.split("\t")
+                nbig += 1
+                if f[3:] != ["0", f[2]]:
+                    v.violation("long abandoned attempt, shape %s, lookahead %s, %s identifiers then '.': A/B have %s elements, expected 0 and %s" % (f[0], f[1], f[2], "/".join(f[3:]), f[2]),
+                                {"property": pid, "kind": "leak-big", "line": line})
+            v.validated(nbig)
+            if nbig < 30:
+                raise Infra("leak-big produced %d lines" % nbig)
         if pid in ("C01", "C02") and not args.replay:
             # small-step machine: refinement to Meaning + validation of the real parser's hook traces
             from props import machine
